@@ -2,10 +2,12 @@
 package c10
 
 import (
+	"encoding/json"
 	"fmt"
 	"sort"
 	"strings"
 	"testing"
+	"time"
 
 	"github.com/dcaiafa/lox/internal/parsergen/lr1"
 	"github.com/dcaiafa/lox/verifharness/lib/cfggen"
@@ -573,19 +575,7 @@ func TestC10(t *testing.T) {
 		}
 	}
 	// determinisation differential (in-process): every kind of accepted specification
-	fd := run.Check("det", run.N(3000, 50000), 8, func(rt *rapid.T, fail ev.FailFunc) {
-		o := lexgen.Opts{MaxModes: 2, ModeActs: true, Frags: true, Macros: true, ShuffleAct: true, MaxRules: 6, RepeatPop: true,
-			NonGreedy: rapid.IntRange(0, 2).Draw(rt, "ng") != 0, Nullable: rapid.IntRange(0, 3).Draw(rt, "nullable") == 0}
-		c := &Case{Kind: "det", S: lexgen.GenSpec(rt, o)}
-		if o.NonGreedy {
-			run.Class("det:specs-with-non-greedy-repetitions-allowed")
-		}
-		d, text := evalDet(run, c.S, true)
-		c.Lox = text
-		if d != "" {
-			fail(c, "%s", d)
-		}
-	})
+	fd := run.Check("det", run.N(3000, 50000), 8, propDet(run))
 	if fd != nil {
 		c, _ := fd.Case.(*Case)
 		if c == nil {
@@ -593,6 +583,21 @@ func TestC10(t *testing.T) {
 		}
 		report(c, fd.Msg)
 		return
+	}
+	if run.Thorough() {
+		// the same property under the native coverage-guided fuzzer
+		if cr := run.NativeFuzz("FuzzDet", 150*time.Second, 12); cr != nil {
+			var c Case
+			if err := json.Unmarshal(cr.Case, &c); err != nil {
+				run.HarnessError("native fuzzing: case does not decode: %v", err)
+			}
+			if d, text := evalDet(run, c.S, false); d != "" {
+				c.Lox = text
+				report(&c, d)
+				return
+			}
+			run.Inconclusive("native fuzzing: falsified case did not reproduce through the plain evaluator")
+		}
 	}
 	n := run.N(1600, 25000)
 	const batch = 400
@@ -636,4 +641,27 @@ func TestC10(t *testing.T) {
 		}
 	}
 	run.RequireClass("lexer:spec-with-shared-rows", 30)
+}
+
+// propDet is the determinisation differential as a generated-case property (rapid run and native fuzz target).
+func propDet(run *ev.Run) func(rt *rapid.T, fail ev.FailFunc) {
+	return func(rt *rapid.T, fail ev.FailFunc) {
+		o := lexgen.Opts{MaxModes: 2, ModeActs: true, Frags: true, Macros: true, ShuffleAct: true, MaxRules: 6, RepeatPop: true,
+			NonGreedy: rapid.IntRange(0, 2).Draw(rt, "ng") != 0, Nullable: rapid.IntRange(0, 3).Draw(rt, "nullable") == 0}
+		c := &Case{Kind: "det", S: lexgen.GenSpec(rt, o)}
+		if o.NonGreedy {
+			run.Class("det:specs-with-non-greedy-repetitions-allowed")
+		}
+		d, text := evalDet(run, c.S, true)
+		c.Lox = text
+		if d != "" {
+			fail(c, "%s", d)
+		}
+	}
+}
+
+// FuzzDet: coverage-guided search over the same structured generator (thorough tier).
+func FuzzDet(f *testing.F) {
+	run := ev.Start("C10")
+	ev.FuzzTarget(f, propDet(run))
 }
